@@ -366,7 +366,48 @@ func immutAug(res *Result, dump string, idx int, cs interface{}) {
 	bad("concurrent rendering and aggregation")
 }
 
-var immutOnly bool
+var immutOnly, cutOnly bool
+
+// cutAug: C10 with path guessing and source analysis on. The stream is cut at every byte after
+// the first goroutine (EOF and reader failure); the first goroutine lies entirely before the cut
+// and must be what the uncut stream yields for it - typed renderings and local paths included.
+func cutAug(res *Result, dump string, idx int, cs interface{}) {
+	opts := &stack.Opts{LocalGOROOT: runtime.GOROOT(), GuessPaths: true, AnalyzeSources: true}
+	full, _ := scanWith(dump, opts)
+	if full == nil || len(full.Goroutines) != 2 || len(full.Goroutines[0].Stack.Calls[0].Args.Processed) == 0 {
+		return
+	}
+	end1 := strings.Index(dump, "\ngoroutine 2 ")
+	if end1 < 0 {
+		return
+	}
+	for k := end1 + 1; k <= len(dump); k++ {
+		for _, final := range []error{nil, errInjected} {
+			src := newSource([]byte(dump[:k]), nil, 0, final, false)
+			obs := runStream(src, opts, 6)
+			res.count("augmented_cuts", 1)
+			var gs []*stack.Goroutine
+			for _, o := range obs {
+				if o.Panic != "" {
+					res.violation(Finding{Property: "C10", Aspect: "panic", What: fmt.Sprintf("augment case %d cut at byte %d: %s", idx, k, firstLine(o.Panic)), Case: cs, Input: []byte(dump[:k])})
+					return
+				}
+				if o.Snap != nil && gs == nil {
+					gs = o.Snap.Goroutines
+				}
+			}
+			if len(gs) == 0 || !reflect.DeepEqual(gs[0], full.Goroutines[0]) {
+				var got interface{}
+				if len(gs) > 0 {
+					got = map[string]interface{}{"processed": gs[0].Stack.Calls[0].Args.Processed, "local": gs[0].Stack.Calls[0].LocalSrcPath}
+				}
+				res.violation(Finding{Property: "C10", Aspect: "complete-goroutine-augmented", What: fmt.Sprintf("augment case %d cut at byte %d/%d (path guessing and source analysis on): goroutine 1 lies entirely before the cut but is missing or differs from the uncut result", idx, k, len(dump)),
+					Case: cs, Input: []byte(dump[:k]), Expected: map[string]interface{}{"processed": full.Goroutines[0].Stack.Calls[0].Args.Processed, "local": full.Goroutines[0].Stack.Calls[0].LocalSrcPath}, Observed: got})
+				return
+			}
+		}
+	}
+}
 
 func checkAugCase(res *Result, ac *augCase, dir string, idx int, seed int64, realRun bool) {
 	rng := rand.New(rand.NewSource(seed))
@@ -467,9 +508,17 @@ func checkAugCase(res *Result, ac *augCase, dir string, idx int, seed int64, rea
 		ps2[0] = q
 		tail := "other.fn(0x10, 0xc000123456)\n\t/nonexistent/x.go:7 +0x1d\n"
 		dump3 := fmt.Sprintf("goroutine 1 [running]:\n%s(%s)\n\t%s:%d +0x1d\n%s\ngoroutine 2 [running]:\n%s(%s)\n\t%s:%d +0x1d\n%s", fn, words, file, pl, tail, fn, printWords(ps2, recv), file, pl, tail)
-		immutAug(res, dump3, idx, cs)
+		if !cutOnly {
+			immutAug(res, dump3, idx, cs)
+		}
+		if cutOnly {
+			// every frame of the uncut dump is found on disk
+			dump4 := fmt.Sprintf("goroutine 1 [running]:\n%s(%s)\n\t%s:%d +0x1d\n\ngoroutine 2 [running]:\n%s(%s)\n\t%s:%d +0x1d\nmain.main()\n\t%s:%d +0x2a\n", fn, words, file, pl, fn, printWords(ps2, recv), file, pl, file, pl+5)
+			cutAug(res, dump4, idx, cs)
+			cutAug(res, dump3, idx, cs)
+		}
 	}
-	if immutOnly {
+	if immutOnly || cutOnly {
 		return
 	}
 	// mismatching sources: never a crash, a changed value or a changed frame
@@ -580,8 +629,9 @@ func init() {
 		c := newCommon("augment")
 		programs := c.fs.Int("programs", 40, "how many cases are also compiled with the toolchain and crashed")
 		c.fs.BoolVar(&immutOnly, "immut", false, "only the C14 part: immutability of snapshots that hold typed renderings")
+		c.fs.BoolVar(&cutOnly, "cut", false, "only the C10 part: cuts of a dump whose sources are on disk")
 		_ = c.fs.Parse(args)
-		if immutOnly {
+		if immutOnly || cutOnly {
 			*programs = 0
 		}
 		res := newResult("one case = a parameter list over the supported kinds (from MC_Augment) with seeded values incl. negative, extreme and pointer-looking ones, optionally on a pointer-receiver method: a synthetic traceback in the toolchain's word layout against generated sources (naming off and on), six kinds of mismatching sources, and for a seeded sample the real traceback of the compiled (-gcflags '-N -l') and crashed program; non-trivial = at least two parameters")
